@@ -20,7 +20,7 @@ use grin_core::libtx::{build, reward, ProofBuilder};
 use grin_core::pow::{self, Difficulty};
 use grin_core::ser::{self, DeserializationMode, ProtocolVersion, Readable, Writeable};
 use grin_core::genesis;
-use grin_keychain::{ExtKeychain, ExtKeychainPath, Identifier, Keychain};
+use grin_keychain::{ExtKeychain, ExtKeychainPath, Identifier, Keychain, SwitchCommitmentType};
 use grin_util::secp::pedersen::{Commitment, RangeProof};
 use grin_util::{StopState, ToHex};
 use rand::rngs::StdRng;
@@ -70,6 +70,7 @@ fn hx(h: &Hash) -> String {
 }
 
 struct Utxo {
+	commit: Commitment,
 	key: Identifier,
 	value: u64,
 	coinbase: bool,
@@ -148,6 +149,7 @@ fn dump_segments(chain: &Chain, heights: [u8; 4], dir: &str, prefix: &str) -> Va
 		header.kernel_mmr_size,
 	];
 	let mut info = serde_json::Map::new();
+	let mut errors: Vec<Value> = vec![];
 	info.insert("height".into(), json!(header.height));
 	info.insert("hash".into(), json!(hx(&header.hash())));
 	info.insert("output_leaves".into(), json!(n_out_leaves));
@@ -165,24 +167,44 @@ fn dump_segments(chain: &Chain, heights: [u8; 4], dir: &str, prefix: &str) -> Va
 			lasts.push(last);
 			let all_leaves = (first..=last).filter(|p| grin_core::core::pmmr::is_leaf(*p)).count();
 			let path = format!("{}/{}{}_{}.seg", dir, prefix, tree, idx);
-			let (nl, nh, np, bytes, extra, hp0): (usize, usize, usize, Vec<u8>, Option<Hash>, Option<u64>) = match *tree {
-				"bitmap" => {
-					let (s, root) = seg.bitmap_segment(id).expect("bitmap segment");
-					(s.leaf_iter().count(), s.hash_iter().count(), s.proof().size(), to_bytes(&BitmapSegment::from(s)), Some(root), None)
-				}
-				"output" => {
-					let (s, root) = seg.output_segment(id).expect("output segment");
-					let hp = s.hash_iter().map(|x| x.0).collect::<Vec<u64>>().first().cloned();
-					(s.leaf_iter().count(), s.hash_iter().count(), s.proof().size(), to_bytes(&s), Some(root), hp)
-				}
-				"rangeproof" => {
-					let s = seg.rangeproof_segment(id).expect("rangeproof segment");
-					let hp = s.hash_iter().map(|x| x.0).collect::<Vec<u64>>().first().cloned();
-					(s.leaf_iter().count(), s.hash_iter().count(), s.proof().size(), to_bytes(&s), None, hp)
-				}
-				_ => {
-					let s = seg.kernel_segment(id).expect("kernel segment");
-					(s.leaf_iter().count(), s.hash_iter().count(), s.proof().size(), to_bytes(&s), None, None)
+			// the Segmenter is code under test: an error or a panic while producing an honest segment is data
+			type Made = (usize, usize, usize, Vec<u8>, Option<Hash>, Option<u64>);
+			let made = catch_unwind(AssertUnwindSafe(|| -> Result<Made, String> {
+				Ok(match *tree {
+					"bitmap" => {
+						let (s, root) = seg.bitmap_segment(id).map_err(|e| format!("{}", e))?;
+						(s.leaf_iter().count(), s.hash_iter().count(), s.proof().size(), to_bytes(&BitmapSegment::from(s)), Some(root), None)
+					}
+					"output" => {
+						let (s, root) = seg.output_segment(id).map_err(|e| format!("{}", e))?;
+						let hp = s.hash_iter().map(|x| x.0).collect::<Vec<u64>>().first().cloned();
+						(s.leaf_iter().count(), s.hash_iter().count(), s.proof().size(), to_bytes(&s), Some(root), hp)
+					}
+					"rangeproof" => {
+						let s = seg.rangeproof_segment(id).map_err(|e| format!("{}", e))?;
+						let hp = s.hash_iter().map(|x| x.0).collect::<Vec<u64>>().first().cloned();
+						(s.leaf_iter().count(), s.hash_iter().count(), s.proof().size(), to_bytes(&s), None, hp)
+					}
+					_ => {
+						let s = seg.kernel_segment(id).map_err(|e| format!("{}", e))?;
+						(s.leaf_iter().count(), s.hash_iter().count(), s.proof().size(), to_bytes(&s), None, None)
+					}
+				})
+			}));
+			let (nl, nh, np, bytes, extra, hp0) = match made {
+				Ok(Ok(x)) => x,
+				other => {
+					let why = match other {
+						Ok(Err(e)) => e,
+						_ => "panic".to_string(),
+					};
+					errors.push(json!({"tree": tree, "idx": idx, "err": why, "stale": !prefix.is_empty()}));
+					complete.push(false);
+					nleaves.push(0);
+					nhashes.push(0);
+					nproof.push(0);
+					tops.push(last);
+					continue;
 				}
 			};
 			fs::write(&path, &bytes).expect("write seg");
@@ -202,6 +224,7 @@ fn dump_segments(chain: &Chain, heights: [u8; 4], dir: &str, prefix: &str) -> Va
 				"leaves": nleaves, "hashes": nhashes, "proof": nproof, "top": tops}),
 		);
 	}
+	info.insert("errors".into(), json!(errors));
 	Value::Object(info)
 }
 
@@ -251,11 +274,20 @@ fn build_phase(args: &Args) -> i32 {
 	let src = init_chain(&format!("{}/src/chain_data", dir), &g);
 	let mut blocks: Vec<Block> = vec![g.clone()];
 	let mut commits: Vec<(String, Commitment)> = vec![("g".into(), gr.0.commitment())];
-	let mut utxos: Vec<Utxo> = vec![Utxo { key: kid(1, 0), value: 60_000_000_000, coinbase: true, height: 0, group: 0 }];
+	let mut utxos: Vec<Utxo> = vec![Utxo { commit: gr.0.commitment(), key: kid(1, 0), value: 60_000_000_000, coinbase: true, height: 0, group: 0 }];
 	let mut next_key = 0u32;
 	let mut stale = Value::Null;
 	let mut compacted = false;
 	let mut n_spends = 0u64;
+	// The archive header the finished chain will serve. Shape wanted there: an ODD number of output leaves whose
+	// last one (a single-leaf peak) is spent by a later block, i.e. unspent in the served state but absent from
+	// the serving node's current leaf set (the Segmenter reads the PMMRs with the current leaf set).
+	let a_target = {
+		let x = n_blocks.saturating_sub(global::state_sync_threshold() as u64);
+		x - x % global::txhashset_archive_interval()
+	};
+	let mut force: Option<Commitment> = None;
+	let mut shape = json!({"archive_target": a_target, "odd": false, "last_spent_at": Value::Null});
 	for h in 1..=n_blocks {
 		let prev = blocks[(h - 1) as usize].header.clone();
 		// spend 1..3 matured outputs (preferably neighbours created by one transaction) into several outputs
@@ -264,8 +296,18 @@ fn build_phase(args: &Args) -> i32 {
 			.collect();
 		let mut txs: Vec<Transaction> = vec![];
 		let mut fees = 0u64;
-		if !spendable.is_empty() && rng.gen_range(0, 10) < 9 {
-			let first = spendable[rng.gen_range(0, spendable.len())];
+		let forced_idx = force.and_then(|fc| {
+			(0..utxos.len()).find(|i| {
+				utxos[*i].commit == fc && (!utxos[*i].coinbase || utxos[*i].height + 4 <= h) && utxos[*i].value >= 30_000_000
+			})
+		});
+		let want_tx = forced_idx.is_some() || (h == a_target && !spendable.is_empty());
+		if forced_idx.is_some() || (!spendable.is_empty() && (want_tx || rng.gen_range(0, 10) < 9)) {
+			let first = forced_idx.unwrap_or_else(|| spendable[rng.gen_range(0, spendable.len())]);
+			if forced_idx.is_some() {
+				force = None;
+				shape["last_spent_at"] = json!(h);
+			}
 			let grp = utxos[first].group;
 			let mut ins: Vec<usize> = vec![first];
 			let want = rng.gen_range(1, 4);
@@ -277,7 +319,14 @@ fn build_phase(args: &Args) -> i32 {
 			ins.sort();
 			let total: u64 = ins.iter().map(|i| utxos[*i].value).sum();
 			let fee = 10_000_000u64; // 0.01 grin (values shrink as outputs are split again and again)
-			let k = rng.gen_range(1, max_outs + 1);
+			let mut k = rng.gen_range(1, max_outs + 1);
+			if total < 200_000_000 {
+				k = 1;
+			}
+			if h == a_target && (commits.len() as u64 + k + 1) % 2 == 0 {
+				// outputs so far + k + coinbase must be odd
+				k = if k < max_outs { k + 1 } else { k - 1 };
+			}
 			let mut elems = vec![];
 			for i in &ins {
 				let u = &utxos[*i];
@@ -294,7 +343,8 @@ fn build_phase(args: &Args) -> i32 {
 				next_key += 1;
 				let key = kid(2, next_key);
 				elems.push(build::output(v, key.clone()));
-				new_utxos.push(Utxo { key, value: v, coinbase: false, height: h, group: h });
+				let commit = kc.commit(v, &key, SwitchCommitmentType::Regular).expect("commit");
+				new_utxos.push(Utxo { commit, key, value: v, coinbase: false, height: h, group: h });
 			}
 			let tx = build::transaction(
 				KernelFeatures::Plain { fee: FeeFields::new(0, fee).unwrap() },
@@ -316,11 +366,15 @@ fn build_phase(args: &Args) -> i32 {
 		}
 		let rw = reward::output(&kc, &pb, &kid(1, h as u32), fees, false).unwrap();
 		commits.push((format!("c{}", h), rw.0.commitment()));
-		utxos.push(Utxo { key: kid(1, h as u32), value: 60_000_000_000 + fees, coinbase: true, height: h, group: 1_000_000 + h });
+		utxos.push(Utxo { commit: rw.0.commitment(), key: kid(1, h as u32), value: 60_000_000_000 + fees, coinbase: true, height: h, group: 1_000_000 + h });
 		let mut blk = Block::new(&prev, &txs, Difficulty::from_num(1), rw).expect("block new");
 		blk.header.timestamp = prev.timestamp + Duration::seconds(60);
 		src.set_txhashset_roots(&mut blk).expect("roots");
 		src.process_block(blk.clone(), Options::SKIP_POW).expect("process on source");
+		if h == a_target {
+			shape["odd"] = json!(commits.len() % 2 == 1);
+			force = blk.outputs().last().map(|o| o.commitment());
+		}
 		blocks.push(blk);
 		if h == stale_at {
 			stale = dump_segments(&src, heights, &dir, "stale_");
@@ -368,7 +422,7 @@ fn build_phase(args: &Args) -> i32 {
 		"validate": src.validate(false).is_ok(),
 	});
 	let info = json!({
-		"blocks": n_blocks, "spends": n_spends, "compacted": compacted, "compact_at": compact_at,
+		"shape": shape, "blocks": n_blocks, "spends": n_spends, "compacted": compacted, "compact_at": compact_at,
 		"archive": seginfo, "stale": stale, "archive_header_roots": header_roots_json(&archive),
 		"twin": twin_proj, "source": src_proj, "commits": names, "zip_ok": zip_ok,
 		"outputs_total": commits.len(),
